@@ -53,7 +53,12 @@ def build_msg(m, devs, futs):
     cmd = m["cmd"]
     if cmd == "wait_for":
         args = [[futs[a] for a in args]]
+    if cmd in ("install_suspender", "remove_suspender"):
+        args = [SUSPENDERS[args[0]]]
     return Msg(cmd, obj, *args, run=run, **kwargs)
+
+
+SUSPENDERS = {}     # name -> suspender object of the scenario being run (Msg('install_suspender', None, <object>))
 
 
 def make_program_plan(prog, devs, futs):
@@ -175,6 +180,10 @@ class Scenario:
             pre = [build_msg(m, devs, futs) for m in d.get("pre", [])] or None
             post = [build_msg(m, devs, futs) for m in d.get("post", [])] or None
             suspenders[n] = cls(sigs[d["signal"]], *d.get("args", []), pre_plan=pre, post_plan=post)
+        SUSPENDERS.clear()
+        SUSPENDERS.update(suspenders)
+        rec_mod.SUS_NAMES.clear()
+        rec_mod.SUS_NAMES.update({id(v): k for k, v in suspenders.items()})
 
         def sus_op(op, name, value=0):
             """install / remove a suspender, change a signal: logged as request events"""
